@@ -83,8 +83,7 @@ def random_scenario(idx, rng):
 def run(prop, tier):
     t0 = time.time()
     rng = random.Random(vf.seed() * 15485863 + 3)
-    workdir = os.path.join(vf.OUT, prop, tier)
-    os.makedirs(workdir, exist_ok=True)
+    workdir = vf.fresh_workdir(prop, tier)
     binary = vf.build_harness()
     notes = []
     states = trans = 0
